@@ -16,7 +16,13 @@ for _p in sorted(glob.glob(os.path.join(_here, "C[0-9][0-9]", "reg.py"))):
     _pid = os.path.basename(os.path.dirname(_p))
     _spec = importlib.util.spec_from_file_location("reg_" + _pid, _p)
     _m = importlib.util.module_from_spec(_spec)
-    _spec.loader.exec_module(_m)
+    try:
+        _spec.loader.exec_module(_m)
+        _m.TARGETS, _m.PROP, _m.META
+    except Exception as _e:  # a fragment under construction must not break the other properties
+        import sys
+        print(f"warning: ignoring broken registry fragment {_p}: {_e}", file=sys.stderr)
+        continue
     for _k, _v in _m.TARGETS.items():
         assert _k not in TARGETS, "duplicate target " + _k
         TARGETS[_k] = _v
